@@ -108,7 +108,7 @@ def gen_cfg(rng, max_vars=4, max_terms=3, max_prods=7, max_body=4, profile=None,
     # in part of the cases one variable carries the same *value* as a terminal (they stay two symbols of the grammar)
     alias = {rng.pick(vs): rng.pick(ts)} if (ts and not strings_only and not reserved and rng.chance(0.05)) else None
     return {"vars": vs, "terms": ts, "start": start, "prods": prods, "valmode": valmode, "hash": hashes,
-            "hashmode": mode, "profile": profile, "ctor_sets": rng.chance(0.3), "alias": alias,
+            "hashmode": mode, "profile": profile, "ctor_sets": rng.chance(0.3), "alias": alias, "start_raw": rng.chance(0.3),
             "words_as_terminals": rng.chance(0.4)}
 
 
@@ -116,7 +116,8 @@ def gen_cfg(rng, max_vars=4, max_terms=3, max_prods=7, max_body=4, profile=None,
 
 MIXED = {"a": 1, "b": "b", "c": 2.5, "zz": "zz"}
 BININT = {"a": 0, "b": 1, "c": 2, "zz": 9}        # small ints: the binary alphabet 0 / 1 (token ids)
-TERM_MAPS = {"mixed": MIXED, "binint": BININT}
+TUPLES = {"a": (0, "x"), "b": (), "c": (1, 2, 3), "zz": ("zz",)}      # letters of a product alphabet
+TERM_MAPS = {"mixed": MIXED, "binint": BININT, "tup": TUPLES}
 
 
 def val(case, name):
@@ -134,6 +135,8 @@ def val(case, name):
     if case["valmode"] == "mixed2":
         # terminals that print alike but are different values: 1 and "1", "a b" next to "a" and "b"
         return {"a": 1, "b": "1", "c": "1 1", "zz": "zz"}.get(name, name)
+    if case["valmode"] == "tup":
+        return TUPLES.get(name, name)
     if case["valmode"] == "binint":
         # terminals are small ints (the values the library itself gives to the variables of an intersection / to_cfg)
         return BININT.get(name, name)
@@ -173,7 +176,9 @@ def build(case):
     if case.get("ctor_sets"):
         kw["variables"] = {Variable(val(case, v)) for v in case["vars"]}
         kw["terminals"] = {Terminal(val(case, t)) for t in case["terms"]}
-    return CFG(start_symbol=Variable(val(case, case["start"])), productions=set(ps), **kw)
+    start = val(case, case["start"])
+    # "start_raw": the start symbol handed over as a plain value (the constructor wraps it), not as a Variable
+    return CFG(start_symbol=start if case.get("start_raw") else Variable(start), productions=set(ps), **kw)
 
 
 def lib_sym(x):
@@ -246,12 +251,14 @@ def shrink_cfg(case):
             yield mk(prods=np_, terms=[x for x in case["terms"] if x != t])
     if case.get("ctor_sets"):
         yield mk(ctor_sets=False)
+    if case.get("start_raw"):
+        yield mk(start_raw=False)
     if case.get("hash"):
         ident = {n: i for i, n in enumerate(sorted(case["hash"]))}
         if ident != case["hash"]:
             yield mk(hash=ident)
         yield mk(valmode="str", hash=None)
-    if case["valmode"] in ("mixed", "mixed2", "pvar", "termname", "binint"):
+    if case["valmode"] in ("mixed", "mixed2", "pvar", "termname", "binint", "ivar", "tup"):
         yield mk(valmode="str")
 
 
